@@ -246,6 +246,8 @@ type lockEdge struct {
 	From, To       string
 	FromRead, Read bool
 	Where          string
+	// Held: every lock class held at the acquisition (including From), true = held in read mode only
+	Held map[string]bool
 }
 
 func (c *Ctx) lockClass(p PtrV) string {
@@ -299,11 +301,31 @@ func (c *Ctx) noteAcquire(p PtrV, read bool) {
 	class := c.lockClass(p)
 	key := p.key()
 	hd := c.harnessDepth()
+	if len(c.shared.serialFns) > 0 {
+		for fr := c.cur; fr != nil; fr = fr.caller {
+			if c.shared.serialFns[fr.fn.String()] {
+				c.held = append(c.held, heldLock{key: key, class: class, read: read, hdepth: -1})
+				return
+			}
+		}
+	}
+	held := map[string]bool{}
+	for _, h := range c.held {
+		if h.hdepth != hd {
+			continue
+		}
+		if r, ok := held[h.class]; !ok || (r && !h.read) {
+			held[h.class] = h.read
+		}
+	}
+	if !read {
+		c.shared.noteWriteAcquire(class, held)
+	}
 	for _, h := range c.held {
 		if h.key == key || h.class == class || h.hdepth != hd {
 			continue
 		}
-		c.shared.addLockEdge(lockEdge{From: h.class, To: class, FromRead: h.read, Read: read, Where: c.where()})
+		c.shared.addLockEdge(lockEdge{From: h.class, To: class, FromRead: h.read, Read: read, Where: c.where(), Held: held})
 	}
 	c.held = append(c.held, heldLock{key: key, class: class, read: read, hdepth: hd})
 }
@@ -325,30 +347,113 @@ func (s *Shared) addLockEdge(e lockEdge) {
 		s.lockEdges = map[string]lockEdge{}
 	}
 	k := e.From + "->" + e.To
-	if _, ok := s.lockEdges[k]; !ok {
+	if os.Getenv("GOSMT_LOCKDEBUG") != "" {
+		fmt.Fprintf(os.Stderr, "lock-edge %s fromRead=%v read=%v held=%v at%s\n", k, e.FromRead, e.Read, e.Held, e.Where)
+	}
+	if old, ok := s.lockEdges[k]; !ok {
 		s.lockEdges[k] = e
+	} else {
+		// keep the weakest context seen for this edge: only locks held (and held exclusively) at every occurrence
+		// can serve as gates
+		for g, r := range old.Held {
+			r2, ok := e.Held[g]
+			if !ok {
+				delete(old.Held, g)
+			} else if r2 && !r {
+				old.Held[g] = true
+			}
+		}
+		old.Read = old.Read && e.Read
+		old.FromRead = old.FromRead && e.FromRead
+		s.lockEdges[k] = old
 	}
 }
 
-// lockCycles returns one description per cycle of length 2 in the lock-order graph (longer cycles are reported
-// through their 2-cycles or not at all: stated bound of the check).
+// noteWriteAcquire records, per lock class, the locks that were held exclusively at every exclusive acquisition
+// of that class seen so far (its write gates).
+func (s *Shared) noteWriteAcquire(class string, held map[string]bool) {
+	s.mu.Lock()
+	defer s.mu.Unlock()
+	if s.writeGates == nil {
+		s.writeGates = map[string]map[string]bool{}
+	}
+	g, ok := s.writeGates[class]
+	if !ok {
+		g = map[string]bool{}
+		for h, r := range held {
+			if !r {
+				g[h] = true
+			}
+		}
+		s.writeGates[class] = g
+		return
+	}
+	for h := range g {
+		if r, ok := held[h]; !ok || r {
+			delete(g, h)
+		}
+	}
+}
+
+// blocked: can the acquisition at the head of edge e (thread holds e.From, wants e.To) wait for ever on the other
+// thread of a 2-cycle, which holds e.To in mode otherRead? A write request or a write holder conflicts directly.
+// Two read locks only conflict when a third goroutine is queued for the write lock in between; that cannot happen
+// when every exclusive acquisition of e.To seen anywhere is made under an exclusive lock that this thread holds
+// (in any mode) while it waits.
+func (s *Shared) blocked(e lockEdge, otherRead bool) bool {
+	if !e.Read || !otherRead {
+		return true
+	}
+	gates, seen := s.writeGates[e.To]
+	if !seen {
+		return false // nobody ever takes it exclusively on the explored paths
+	}
+	for g := range gates {
+		if _, ok := e.Held[g]; ok {
+			return false
+		}
+	}
+	return true
+}
+
+// lockCycles returns one description per deadlock-capable cycle of length 2 in the lock-order graph (longer
+// cycles are not searched: stated bound of the check).
 func (s *Shared) lockCycles() []string {
 	var out []string
-	for k, e := range s.lockEdges {
+	for _, e := range s.lockEdges {
 		if e.From >= e.To {
 			continue
 		}
-		if r, ok := s.lockEdges[e.To+"->"+e.From]; ok {
-			mode := func(b bool) string {
-				if b {
-					return "R"
-				}
-				return "W"
-			}
-			_ = k
-			out = append(out, fmt.Sprintf("%s(%s) then %s(%s) at%s  ||  %s(%s) then %s(%s) at%s",
-				e.From, mode(e.FromRead), e.To, mode(e.Read), e.Where, r.From, mode(r.FromRead), r.To, mode(r.Read), r.Where))
+		r, ok := s.lockEdges[e.To+"->"+e.From]
+		if !ok {
+			continue
 		}
+		// thread 1 holds e.From (e.FromRead) and wants e.To (e.Read); thread 2 holds r.From == e.To (r.FromRead) and
+		// wants r.To == e.From (r.Read)
+		if !s.blocked(e, r.FromRead) || !s.blocked(r, e.FromRead) {
+			continue
+		}
+		// a lock both threads hold, one of them exclusively, serialises the two sections
+		gated := false
+		for g, r1 := range e.Held {
+			if g == e.From || g == e.To {
+				continue
+			}
+			if r2, ok := r.Held[g]; ok && (!r1 || !r2) {
+				gated = true
+			}
+		}
+		if gated {
+			continue
+		}
+		mode := func(b bool) string {
+			if b {
+				return "R"
+			}
+			return "W"
+		}
+		out = append(out, fmt.Sprintf("%s(%s) then %s(%s) at%s  ||  %s(%s) then %s(%s) at%s",
+			e.From, mode(e.FromRead), e.To, mode(e.Read), e.Where, r.From, mode(r.FromRead), r.To, mode(r.Read), r.Where))
 	}
 	sort.Strings(out)
 	return out
